@@ -70,8 +70,28 @@ func NewSession(w *World, h *Header, tag string, table Table, ad Adapter) *Sessi
 }
 
 func (s *Session) DsReal(n string) string    { return n + "-" + s.Tag }
-func (s *Session) EntCurie(e string) string  { return s.W.EntP + ":" + e + "-" + s.Tag }
-func (s *Session) EntURI(e string) string    { return EntNS + e + "-" + s.Tag }
+
+// An abstract entity "meta_<ds>" stands for an entity that carries the id of the hub's own meta-entity of dataset <ds>
+// (a copy of the core.Dataset feed kept in an ordinary dataset, as a catalogue job would write it).
+const metaEnt = "meta_"
+
+func (s *Session) dsPrefix() string {
+	info, _ := s.W.Store.NamespaceManager.GetDatasetNamespaceInfo()
+	return info.DatasetPrefix
+}
+
+func (s *Session) EntCurie(e string) string {
+	if strings.HasPrefix(e, metaEnt) {
+		return s.dsPrefix() + ":" + s.DsReal(e[len(metaEnt):])
+	}
+	return s.W.EntP + ":" + e + "-" + s.Tag
+}
+func (s *Session) EntURI(e string) string {
+	if strings.HasPrefix(e, metaEnt) {
+		return "http://data.mimiro.io/core/dataset/" + s.DsReal(e[len(metaEnt):])
+	}
+	return EntNS + e + "-" + s.Tag
+}
 func (s *Session) PredCurie(p string) string { return s.W.PredP + ":" + p }
 func (s *Session) PredURI(p string) string   { return PredNS + p }
 
@@ -80,6 +100,9 @@ func (s *Session) entAbstract(curie string) string {
 	suf := "-" + s.Tag
 	if strings.HasPrefix(curie, pre) && strings.HasSuffix(curie, suf) {
 		return curie[len(pre) : len(curie)-len(suf)]
+	}
+	if dp := s.dsPrefix() + ":"; strings.HasPrefix(curie, dp) && strings.HasSuffix(curie, suf) {
+		return metaEnt + curie[len(dp):len(curie)-len(suf)]
 	}
 	return "?" + curie
 }
@@ -105,6 +128,16 @@ func (s *Session) Concrete(e string, c int) *server.Entity {
 	ct := s.H.Contents[c-1]
 	ent := server.NewEntity(s.EntCurie(e), 0)
 	ent.Properties = s.Table.Props(ct.P, s.W)
+	if strings.HasPrefix(e, metaEnt) {
+		// a copy of the meta-entity as the feed of core.Dataset showed it some time ago
+		if info, err := s.W.Store.NamespaceManager.GetDatasetNamespaceInfo(); err == nil {
+			ent.Properties[info.NameKey] = s.DsReal(e[len(metaEnt):])
+			ent.Properties[info.ItemsKey] = 0
+			if rp, err := s.W.Store.NamespaceManager.AssertPrefixMappingForExpansion(server.RdfNamespaceExpansion); err == nil {
+				ent.References[rp+":type"] = info.DatasetPrefix + ":dataset"
+			}
+		}
+	}
 	for p, rv := range ct.R {
 		switch rv.K {
 		case 1:
@@ -1556,6 +1589,8 @@ func (s *Session) checkCatalogue(o *Obs) error {
 		}
 		if exp.State == "live" && (act.Items != exp.Items || act.Name != s.DsReal(n)) {
 			s.diverge("catalogue", q, exp, act, "items/name")
+		} else if len(act.Foreign) > 0 {
+			s.diverge("catalogue", q, "a meta-entity made of the hub's own properties, single-valued", act, "foreign content")
 		}
 	}
 	// dataset list
